@@ -180,6 +180,25 @@ type Snapshot struct {
 
 func (w *World) now() time.Duration { return time.Since(w.t0) }
 
+// release drops what an execution recorded once it has been judged: goroutines that outlive their bubble keep the
+// World reachable (through the fake processes) for the life of the worker.
+func (w *World) release() {
+	w.mu.Lock()
+	defer w.mu.Unlock()
+	w.trace, w.Points, w.Snapshots, w.Final, w.apiRes, w.auxLog = nil, nil, nil, nil, nil, nil
+	for _, f := range w.procs {
+		f.Env, f.Args, f.Written, f.script = nil, nil, nil, nil
+		if f.stdout != nil {
+			f.stdout.buf = nil
+		}
+		if f.stderr != nil {
+			f.stderr.buf = nil
+		}
+	}
+	w.Extra = nil
+	w.sched = nil
+}
+
 func (w *World) addEvent(e Event) {
 	e.T = w.now()
 	w.trace = append(w.trace, e)
